@@ -106,6 +106,9 @@ def do_call(E: Engine, node: ast.Call, st: State):
         if meth in METHOD_EXT:
             return METHOD_EXT[meth](E, base, arr, node, st)
         raise OutsideSubset("array method ." + meth)
+    if isinstance(fv, tuple) and len(fv) == 3 and fv[0] == "omethod":
+        _, selfv, mkey = fv
+        return repo_call(E, mkey, node, st, self_value=selfv)
     # ---------------- builtins / numpy
     if isinstance(fv, NpV):
         return np_call(E, fv.path, node, st)
@@ -480,15 +483,40 @@ def coerce_to_type(E, v, ty, st, what):
     return v
 
 
-def repo_call(E: Engine, key, node, st):
-    c = CONTRACTS.get(key)
+def contracts_for(key):
+    """the contract of a function, or its variants (keys "mod:qualname#variant")"""
+    out = [c for k, c in CONTRACTS.items() if k == key or k.startswith(key + "#")]
+    return out
+
+
+def repo_call(E: Engine, key, node, st, self_value=None):
+    key = source.resolve_export(key)
+    is_ctor = key.endswith(".__init__")
+    cs = contracts_for(key)
     try:
         mi, fn = source.function(key)
     except source.SourceError as e:
         raise OutsideSubset(str(e))
-    if c is None:
-        return inline_call(E, key, mi, fn, node, st)
-    bound = bind_args(fn, node, E, st)
+    if not cs:
+        if is_ctor:
+            raise OutsideSubset("constructor %s has no contract" % key)
+        return inline_call(E, key, mi, fn, node, st, self_value)
+    bound = bind_args(fn, node, E, st, skip_self=(is_ctor or self_value is not None))
+    if self_value is not None:
+        bound["self"] = self_value
+    if len(cs) == 1:
+        c = cs[0]
+    else:
+        # variants are told apart by which optional arguments are None
+        def fits(c):
+            for p, t in c.types.items():
+                if p in bound and ((bound[p] is None) != (parse_type(t)[0] == "none")):
+                    return False
+            return True
+        cands = [c for c in cs if fits(c)]
+        if len(cands) != 1:
+            raise OutsideSubset("cannot select a contract variant for %s" % key)
+        c = cands[0]
     return apply_contract(E, c, bound, st, "%s@%s" % (c.qualname, E.cur_line))
 
 
@@ -526,7 +554,9 @@ def apply_contract(E: Engine, c, bound, st, tag):
                 st.heap[v.id] = Arr(E.fresh(m + "'", arr_sort(a.elem, a.rank)), a.shape, a.elem)
         # result
         res = None
-        if c.result_alias:
+        if getattr(c, "ctor_result", None):
+            res = env[c.ctor_result]
+        elif c.result_alias:
             res = env[c.result_alias]
         elif c.returns:
             res = E.fresh_of_type(parse_type(c.returns), "r." + c.qualname.split(".")[-1], st)
@@ -545,22 +575,22 @@ def _ob(name, st, goal, line):
     return Obligation(name, list(st.pc), goal, line, "call-pre")
 
 
-def inline_call(E: Engine, key, mi, fn, node, st):
+def inline_call(E: Engine, key, mi, fn, node, st, self_value=None):
     """uncontracted, loop-free repo helper: inline its body (depth <= 2)"""
-    if E.inline_depth >= 2:
+    if E.inline_depth >= 3:
         raise OutsideSubset("inline depth at " + key)
     if source.loops_preorder(fn):
         raise OutsideSubset("callee %s has loops and no contract" % key)
-    bound = bind_args(fn, node, E, st)
+    bound = bind_args(fn, node, E, st, skip_self=self_value is not None)
+    if self_value is not None:
+        bound["self"] = self_value
     sub = State(bound, st.heap, st.pc)
     saved = (E.mi, E.exits, E.cur_line)
     E.mi, E.exits = mi, []
     E.inline_depth += 1
     try:
-        end = E.exec_block(source.body_without_docstring(fn), sub)
-        exits = E.exits
-        if end is not None:
-            exits = exits + [Exit("return", end, None)]
+        ends = E.exec_block(source.body_without_docstring(fn), sub)
+        exits = E.exits + [Exit("return", e, None) for e in ends]
     finally:
         E.mi, E.exits, E.cur_line = saved[0], saved[1], saved[2]
         E.inline_depth -= 1
